@@ -1074,4 +1074,84 @@ pub fn corr(run: &mut Run) {
         run.count(&format!("probe:vector_get-constant-index-out-of-range:{}", what));
         run.notes.push(format!("probe: meta pass on vector_get(create_vector(i,i), constant 5) ends with: {} (run-time error graph; outside C06)", what));
     }
+    stream_multi_graph(run);
+}
+
+/// M: contexts with several independent graphs whose MAIN graph is not the last one (hand-built or
+/// deserialized contexts; the standard pipeline always emits the main graph last). optimize_context must
+/// keep the interface: the optimised context's main graph is the image of the original main graph — same
+/// value on the same inputs, same input names — and every other graph keeps its value too.
+fn stream_multi_graph(run: &mut Run) {
+    let mut rng = run.rng("multi-graph");
+    let n = run.tier.scale(12, 100);
+    for it in 0..n {
+        let n_graphs = 2 + (it % 2) as usize;
+        let main_pos = rng.below(n_graphs as u64) as usize;
+        let built = catch(|| -> Result<(Context, Vec<i64>)> {
+            let c = create_context()?;
+            let mut ks = vec![];
+            let mut gs = vec![];
+            for gi in 0..n_graphs {
+                let g = c.create_graph()?;
+                let x = g.input(array_type(vec![3], INT64))?;
+                x.set_name(&format!("x{}", gi))?;
+                let k = 2 + gi as i64 * 3 + rng.below(3) as i64;
+                ks.push(k);
+                let kc = g.constant(scalar_type(INT64), Value::from_scalar(k, INT64)?)?;
+                let kc2 = g.constant(scalar_type(INT64), Value::from_scalar(k, INT64)?)?;
+                // k*x + k  (with a duplicated constant and a dangling node for the passes to work on)
+                let _dangling = x.add(x.clone())?;
+                let o = x.multiply(kc)?.add(kc2)?;
+                o.set_as_output()?;
+                g.finalize()?;
+                g.set_name(&format!("graph{}", gi))?;
+                gs.push(g);
+            }
+            gs[main_pos].set_as_main()?;
+            c.finalize()?;
+            Ok((c, ks))
+        });
+        let (c, ks) = match built {
+            Ok(Ok(x)) => x,
+            _ => continue,
+        };
+        let descr = format!("multi-graph context: {} graphs computing k*x+k with k={:?}, main graph at position {}", n_graphs, ks, main_pos);
+        run.oracle_case(&descr, true);
+        run.count(&format!("multi-graph:main-{}", if main_pos + 1 == n_graphs { "last" } else { "not-last" }));
+        let xs: Vec<i64> = (0..3).map(|_| rng.range(-50, 50)).collect();
+        let input = Value::from_flattened_array(&xs, INT64).unwrap();
+        let r = catch(|| -> Result<Option<String>> {
+            let m = optimize_context(&c, SimpleEvaluator::new(None)?)?;
+            let oc = m.get_context();
+            let eval_main = |ctx: &Context| -> Result<Vec<i64>> {
+                let mut e = SimpleEvaluator::new(None)?;
+                e.preprocess(ctx)?;
+                let v = e.evaluate_graph(ctx.get_main_graph()?, vec![input.clone()])?;
+                v.to_flattened_array_i64(array_type(vec![3], INT64))
+            };
+            let want: Vec<i64> = xs.iter().map(|x| ks[main_pos] * x + ks[main_pos]).collect();
+            let before = eval_main(&c)?;
+            let after = eval_main(&oc)?;
+            if before != want {
+                return Ok(Some(format!("generator: original main graph gives {:?}, expected {:?}", before, want)));
+            }
+            if after != want {
+                return Ok(Some(format!("the optimised context's main graph gives {:?} on x={:?}, the original main graph gives {:?}", after, xs, want)));
+            }
+            let in_name = oc.get_main_graph()?.get_nodes().iter().find(|n| n.get_operation().is_input()).and_then(|n| n.get_name().ok().flatten());
+            if in_name != Some(format!("x{}", main_pos)) {
+                return Ok(Some(format!("the input of the optimised main graph is named {:?}, expected x{}", in_name, main_pos)));
+            }
+            if oc.get_graphs().len() != n_graphs {
+                return Ok(Some(format!("the optimised context has {} graphs, expected {}", oc.get_graphs().len(), n_graphs)));
+            }
+            Ok(None)
+        });
+        match r {
+            Ok(Ok(None)) => {}
+            Ok(Ok(Some(why))) => run.oracle_fail("C06:multi-graph:interface", format!("{} : {}", descr, why)),
+            Ok(Err(e)) => run.oracle_fail("C06:multi-graph:error", format!("{} : {}", descr, trunc(&format!("{}", e), 200))),
+            Err(p) => run.oracle_fail("C06:panic:multi-graph", format!("{} : {}", descr, p)),
+        }
+    }
 }
